@@ -127,6 +127,36 @@ theorem fault_anywhere_before_output (C : CryptoFns) (key : J) (file : Option By
     exact ⟨this.1, fun hw => by have := this.2.mp hw; simp [initSt] at this⟩
   · exact absurd h (fault_stops_in_prefix C key k (computePart file) 0 (initSt file) (by omega) (by omega))
 
+theorem runSteps_prefix_then (C : CryptoFns) (key : J) (fault : Option Nat) : ∀ (pre post : List SignStep) (i : Nat) (st : SignSt),
+    runSteps C key fault i (pre ++ post) st =
+      (if (runSteps C key fault i pre st).1 = .done then runSteps C key fault (i + pre.length) post (runSteps C key fault i pre st).2
+       else runSteps C key fault i pre st)
+  | [], post, i, st => by simp [runSteps]
+  | s :: r, post, i, st => by
+    simp only [List.cons_append, runSteps]
+    split
+    · simp
+    · cases he : execStep C key st s with
+      | error e => simp
+      | ok st' =>
+        simp only
+        rw [runSteps_prefix_then C key fault r post (i + 1) st']
+        simp only [List.length_cons]
+        rw [show i + 1 + r.length = i + (r.length + 1) by omega]
+
+/-- **the operating system refuses the output** (the file cannot be opened for writing: read-only, immutable, quota): the failure comes *instead of* the
+first output step, after everything was computed and serialized — the file on disk is byte-identical and was never opened for writing -/
+theorem refused_open_leaves_file (C : CryptoFns) (key : J) (file : Option Bytes) :
+    (runSteps C key (some (computePart file).length) 0 (signPlan file) (initSt file)).2.file = file ∧
+    OpenEv.write ∉ (runSteps C key (some (computePart file).length) 0 (signPlan file) (initSt file)).2.opens := by
+  rw [signPlan_split, runSteps_prefix_then]
+  have hpre := no_write_before_output C key (some (computePart file).length) (computePart file) 0 (initSt file) (computePart_no_output file)
+  split
+  · -- the compute part went through; the refused open is the injected fault
+    simp only [runSteps, Nat.zero_add, if_true]
+    exact ⟨hpre.1, fun hw => by have := hpre.2.mp hw; simp [initSt] at this⟩
+  · exact ⟨hpre.1, fun hw => by have := hpre.2.mp hw; simp [initSt] at this⟩
+
 /-- **any failure of the library itself (bad key, malformed input, missing file, …) leaves the file untouched** -/
 theorem failure_leaves_file (C : CryptoFns) (key : J) (file : Option Bytes) (e : PyErr) (st : SignSt)
     (h : runSteps C key none 0 (signPlan file) (initSt file) = (.failed e, st)) : st.file = file := by
